@@ -33,7 +33,8 @@ Print Assumptions C09_gc_terminates.
 
 (* GC keeps exactly the live set [Live]: the least set containing everything reachable
    (through stored content) from a tagged descriptor and, for every digest-indexed descriptor
-   whose subject chain meets a live node, everything reachable from it.  Blob files and graph
+   whose subject chain meets a live manifest, everything reachable from it (a blob named as
+   subject keeps nothing alive).  Blob files and graph
    nodes afterwards = exactly Live; every tag is untouched; a live node's predecessors are
    exactly its live predecessors; stray files are removed iff they have a valid digest name in
    a known algorithm directory.  Independent of all iteration orders. *)
@@ -42,10 +43,10 @@ Theorem C09_gc_exact :
   forall kl ords st, same_elements ords (candidates (idx st)) ->
   exists st',
     gc succ subject manifest cfg_fixed kl ords st = (st', Ok) /\
-    (forall x, In x (blobs st') <-> In x (blobs st) /\ Live succ subject st x) /\
-    (forall x, In x (gnodes st') <-> Live succ subject st x) /\
+    (forall x, In x (blobs st') <-> In x (blobs st) /\ Live succ subject manifest st x) /\
+    (forall x, In x (gnodes st') <-> Live succ subject manifest st x) /\
     (forall t n, In (RTag t, n) (idx st') <-> In (RTag t, n) (idx st)) /\
-    (forall x p, In p (preds succ (gnodes st') x) <-> Live succ subject st p /\ In x (succ p)) /\
+    (forall x p, In p (preds succ (gnodes st') x) <-> Live succ subject manifest st p /\ In x (succ p)) /\
     (forall s, In s (strays st') <-> In s (strays st) /\ (s_known s && s_valid s = false)) /\
     autogc st' = autogc st.
 Proof. exact gc_exact_final. Qed.
